@@ -7,6 +7,15 @@ Theorems about `Model/Notch.lean` (section `binned`) over an arbitrary linearly 
 stress or strain as a function of the load (arbitrary unless stated).  `binned n maxL m law x = none` models the
 `ValueError` of the code.  What the code rejects and the theorems therefore exclude: `number_of_bins = 0`
 (division by zero), a non-positive maximum (edges not increasing: `searchsorted` precondition).
+
+Per-point tables: `lookupMulti` is the per-point look-up as REPAIRED by `tools/fixes/C07-binned-per-point-class.diff`
+(every point selects the class in its own column and is checked against its own range): `binned_multi_eq_single` and
+`binned_multi_out_of_range` hold for EVERY per-point Series.  `lookupMultiFirst` is the code before the repair (class
+and range check of the first point for all points); for it the property fails
+(`first_point_selection_ignores_range_of_other_points`, `first_point_selection_wrong_class`) and only the partial
+statement for proportional loads holds (`binned_multi_first_point_eq_single_partial`).
+The hypotheses "odd, monotone wrapped law" of the consequence clauses are discharged for the extended Neuber law in
+`Proofs/C07Neuber.lean`.
 -/
 import Proofs.Lemmas.Binned
 
@@ -247,17 +256,71 @@ theorem binned_multi_table_eq_single (n : ℕ) (maxLs : List α) (m : ℕ) (law 
   intro k _
   simp [List.getElem?_map, hj]
 
-/-- **Per-point look-up with proportional loads = the single look-ups.**  Points with maxima `M_j = c_j · M₀ > 0` and
+/-- **Per-point look-up = the single look-ups, for every per-point Series** (no proportionality needed): with one
+load per point the result is the list of the results every point gets from its own single table, and it is an error
+exactly when the single look-up of some point is an error; a Series that does not hold exactly one load per point is
+rejected. -/
+theorem binned_multi_eq_single (n : ℕ) (m : ℕ) (law : α → α) (maxLs xs : List α) :
+    lookupMulti maxLs.length (tableMulti n maxLs m law) xs
+      = if xs.length = maxLs.length then (maxLs.zip xs).mapM (fun p => binned n p.1 m law p.2) else none := by
+  unfold lookupMulti
+  split_ifs with h
+  · exact lookupFrom_tableMulti n m law xs [] maxLs h.symm
+  · rfl
+
+/-- **Per-point range check**: the per-point look-up raises exactly when some point's load is above that point's OWN
+initialised range (`|x_j| > edge m` of `M_j`, i.e. `> M_j` on the primary and `> 2·M_j` on the secondary table);
+otherwise every point gets `sign x_j · law(upper edge of x_j's class in the grid of M_j)` (by `binned_multi_eq_single`
+and `binned_upper_edge`). -/
+theorem binned_multi_out_of_range {n : ℕ} (hn : 0 < n) {m : ℕ} (hm : 1 ≤ m) (law : α → α) (maxLs xs : List α)
+    (hM : ∀ M ∈ maxLs, 0 < M) (hlen : xs.length = maxLs.length) :
+    lookupMulti maxLs.length (tableMulti n maxLs m law) xs = none
+      ↔ ∃ p ∈ maxLs.zip xs, edge n p.1 m < |p.2| := by
+  rw [binned_multi_eq_single, if_pos hlen, mapM_option_eq_none_iff]
+  constructor
+  · rintro ⟨p, hp, hnone⟩
+    exact ⟨p, hp, (binned_out_of_range hn (hM p.1 (List.of_mem_zip hp).1) hm law p.2).mp hnone⟩
+  · rintro ⟨p, hp, hlt⟩
+    exact ⟨p, hp, (binned_out_of_range hn (hM p.1 (List.of_mem_zip hp).1) hm law p.2).mpr hlt⟩
+
+/-- the Series look-up on a single table (`fillna(0)` first) is the scalar look-up of every entry -/
+theorem binned_series_eq_scalar (tbl : List (α × α)) (x : α) : lookupSeries tbl x = lookup tbl x :=
+  lookupSeries_eq tbl x
+
+-- the per-point look-up of loads that are not proportional to the maxima, through the theorem
+example : lookupMulti 2 (tableMulti 2 [(4 : ℚ), 2] 2 (fun e => 10 * e)) [3, -1 / 2]
+    = some [signM (3 : ℚ) * (10 * edge 2 4 2), signM (-1 / 2 : ℚ) * (10 * edge 2 2 1)] := by
+  rw [show (2 : ℕ) = [(4 : ℚ), 2].length from rfl]
+  rw [binned_multi_eq_single]
+  decide +kernel
+
+-- non-proportional loads: point 2 (maximum 2) in its own class 1, point 1 (maximum 4) in its class 2
+example : lookupMulti 2 (tableMulti 2 [(4 : ℚ), 2] 2 (fun e => 10 * e)) [3, -1 / 2] = some [40, -10] := by
+  decide +kernel
+
+-- the second point is above its own maximum: error, although the first point is inside its range
+example : lookupMulti 2 (tableMulti 2 [(4 : ℚ), 2] 2 (fun e => 10 * e)) [1, 100] = none := by
+  exact (binned_multi_out_of_range (n := 2) (by norm_num) (m := 2) (by norm_num) (fun e => 10 * e) [(4 : ℚ), 2] [1, 100]
+    (by simp) rfl).mpr ⟨((2 : ℚ), (100 : ℚ)), by simp, by norm_num [edge_top]⟩
+
+/-! ### the per-point look-up as coded before the repair (class of the first point for all points)
+
+`lookupMultiFirst` is the code before `tools/fixes/C07-binned-per-point-class.diff`.  It agrees with the single look-ups
+for proportional loads only (`binned_multi_first_point_eq_single_partial`, the hypothesis `hprop` is what is missing
+for the property), and it returns a value for a point above its own maximum
+(`first_point_selection_ignores_range_of_other_points`): the property's clauses "any load above the initialised
+maximum raises an error" and "with the upper edge of the load's class" fail for it. -/
+
+/-- **(pre-repair code) per-point look-up with proportional loads = the single look-ups.**  Points with maxima `M_j = c_j · M₀ > 0` and
 loads `x_j = c_j · x₀` (`c_j > 0`: the same load history scaled per point; `M₀`, `x₀` belong to the first point): the
 class selected with the first point is the class every point would select alone, so the per-point result is the
 list of the single-table results - and it is an error exactly when the single look-up of a point is an error.
-(For loads that are not proportional the code still selects the class with the first point only; that case is
-outside the property and is covered by the correspondence check only.) -/
-theorem binned_multi_eq_single {n : ℕ} (hn : 0 < n) {M0 : α} (hM : 0 < M0) {m : ℕ} (hm : 1 ≤ m) (law : α → α)
+For loads that are not proportional the statement is false, see the refutation below. -/
+theorem binned_multi_first_point_eq_single_partial {n : ℕ} (hn : 0 < n) {M0 : α} (hM : 0 < M0) {m : ℕ} (hm : 1 ≤ m) (law : α → α)
     (maxLs xs : List α) (x0 : α) (hM0 : maxLs.head? = some M0) (hx0 : xs.head? = some x0)
     (hlen : maxLs.length = xs.length)
     (hprop : ∀ p ∈ maxLs.zip xs, ∃ c, 0 < c ∧ p.1 = c * M0 ∧ p.2 = c * x0) :
-    lookupMulti (tableMulti n maxLs m law) xs = (maxLs.zip xs).mapM (fun p => binned n p.1 m law p.2) := by
+    lookupMultiFirst (tableMulti n maxLs m law) xs = (maxLs.zip xs).mapM (fun p => binned n p.1 m law p.2) := by
   obtain ⟨Ms, rfl⟩ : ∃ Ms, maxLs = M0 :: Ms := by
     cases maxLs with
     | nil => simp at hM0
@@ -282,7 +345,7 @@ theorem binned_multi_eq_single {n : ℕ} (hn : 0 < n) {M0 : α} (hM : 0 < M0) {m
       rw [h1, h2]
       exact binned_scaled_some law hc hi1 him hle hlt
     rw [mapM_option_eq_some _ _ _ hsingle]
-    simp only [lookupMulti, htbl, absM_eq, hsel, Option.map_some]
+    simp only [lookupMultiFirst, htbl, absM_eq, hsel, Option.map_some]
     congr 1
     exact zipWith_map_eq_map_zip _ _ _ _
   · have h1 : lookupAbs ((List.range' 0 m).map fun k =>
@@ -290,12 +353,12 @@ theorem binned_multi_eq_single {n : ℕ} (hn : 0 < n) {M0 : α} (hM : 0 < M0) {m
       lookupAbs_range'_none _ _ _ m 0 (fun j _ hjm =>
         lt_of_le_of_lt ((edge_strictMono hn hM).monotone (by omega)) hout)
     have h2 : binned n M0 m law x0 = none := (binned_out_of_range hn hM hm law x0).mpr hout
-    simp only [lookupMulti, htbl, absM_eq, h1, Option.map_none, List.zip_cons_cons, List.mapM_cons, h2]
+    simp only [lookupMultiFirst, htbl, absM_eq, h1, Option.map_none, List.zip_cons_cons, List.mapM_cons, h2]
     rfl
 
-example : lookupMulti (tableMulti 2 [(4 : ℚ), 2, 6] 2 (fun e => 10 * e)) [-1, -1 / 2, -3 / 2]
+example : lookupMultiFirst (tableMulti 2 [(4 : ℚ), 2, 6] 2 (fun e => 10 * e)) [-1, -1 / 2, -3 / 2]
     = some [-20, -10, -30] := by
-  rw [binned_multi_eq_single (n := 2) (by norm_num) (M0 := (4 : ℚ)) (by norm_num) (m := 2) (by norm_num)
+  rw [binned_multi_first_point_eq_single_partial (n := 2) (by norm_num) (M0 := (4 : ℚ)) (by norm_num) (m := 2) (by norm_num)
     (fun e => 10 * e) [(4 : ℚ), 2, 6] [-1, -1 / 2, -3 / 2] (-1) rfl rfl rfl]
   · decide +kernel
   · intro p hp
@@ -304,5 +367,27 @@ example : lookupMulti (tableMulti 2 [(4 : ℚ), 2, 6] 2 (fun e => 10 * e)) [-1, 
     · exact ⟨1, by norm_num, by norm_num, by norm_num⟩
     · exact ⟨1 / 2, by norm_num, by norm_num, by norm_num⟩
     · exact ⟨3 / 2, by norm_num, by norm_num, by norm_num⟩
+
+
+/-- **Refutation for the pre-repair code**: with the class of the first point for all points there are a table and a
+per-point Series such that the look-up returns values although a point's load is above that point's own initialised
+maximum (maxima 4 and 2, two classes, loads 1 and 100: the second point is at 50 times its maximum and gets the value
+of its class 1) - and the value is not the one of the load's own class for a load inside the range either
+(loads 3 and 1/2: point 2 gets class 2 of its grid, its own class is 1). -/
+theorem first_point_selection_ignores_range_of_other_points :
+    ∃ (n m : ℕ) (maxLs xs : List ℚ) (law : ℚ → ℚ) (r : List ℚ), 0 < n ∧ 1 ≤ m ∧ (∀ M ∈ maxLs, 0 < M) ∧
+      xs.length = maxLs.length ∧
+      lookupMultiFirst (tableMulti n maxLs m law) xs = some r ∧
+      (∃ p ∈ maxLs.zip xs, edge n p.1 m < |p.2|) ∧
+      lookupMulti maxLs.length (tableMulti n maxLs m law) xs = none := by
+  refine ⟨2, 2, [4, 2], [1, 100], fun e => 10 * e, [20, 10], by norm_num, by norm_num, by simp, rfl,
+    by decide +kernel, ⟨((2 : ℚ), (100 : ℚ)), by simp, by norm_num [edge_top]⟩, by decide +kernel⟩
+
+/-- the same for a load inside its range: the pre-repair look-up gives point 2 the value of the wrong class -/
+theorem first_point_selection_wrong_class :
+    lookupMultiFirst (tableMulti 2 [(4 : ℚ), 2] 2 (fun e => 10 * e)) [3, 1 / 2] = some [40, 20] ∧
+    lookupMulti 2 (tableMulti 2 [(4 : ℚ), 2] 2 (fun e => 10 * e)) [3, 1 / 2] = some [40, 10] ∧
+    binned 2 (2 : ℚ) 2 (fun e => 10 * e) (1 / 2) = some 10 := by
+  refine ⟨by decide +kernel, by decide +kernel, by decide +kernel⟩
 
 end PylifeVerif.C07
